@@ -382,6 +382,23 @@ def run_real(case):
             obs["write"] = _err(e)
             return obs
         text = open(path, encoding="utf-8", newline="").read()
+        if not _on(case) and not case.get("poison"):
+            # the same records with descriptors ENABLED: disabling them may only drop the marker keys and the descriptor
+            # documents - "the same scalar JSON values"
+            try:
+                path_on = os.path.join(d, "out_on.json")
+                q_on = "descriptors=true" + ("&indent=%d" % case["indent"] if case["indent"] is not None else "")
+                w2 = RecordWriter("jsonfile://" + path_on + "?" + q_on)
+                try:
+                    for x in recs:
+                        w2.write(x)
+                    w2.flush()
+                finally:
+                    w2.close()
+                docs_on, _ = split_documents(open(path_on, encoding="utf-8", newline="").read())
+                obs["docs_on"] = [canon_json(x) for x in docs_on]
+            except Exception as e:          # noqa: BLE001
+                obs["docs_on_error"] = type(e).__name__ + ": " + str(e)[:120]
         obs["text_len"] = len(text)
         obs["ends_with_newline"] = text.endswith("\n")
         obs["ascii"] = all(ord(c) < 128 for c in text)
@@ -540,6 +557,21 @@ def oracle(case, obs):
             same_id = [a for a in ann if a["a"][0] == data["a"][0]]
             if case.get("collide") and same_id[-1] != data:
                 return f"record document {i} follows a descriptor document of a different descriptor with the same identifier"
+    if not on and "docs_on" in obs:
+        # descriptors off = descriptors on minus the markers: same keys otherwise, same JSON values
+        on_recs = []
+        for dc in obs["docs_on"]:
+            vals_on = [(V.dec_str(k), v) for k, v in dc["o"]]
+            if dict(vals_on).get("_type") == {"s": V.enc_str("recorddescriptor")}:
+                continue
+            on_recs.append([(k, v) for k, v in vals_on if k not in ("_type", "_recorddescriptor")])
+        off_recs = [[(V.dec_str(k), v) for k, v in docs[i]["o"]] for i, _, _, _ in rec_docs]
+        if len(on_recs) == len(off_recs):
+            for k, (a, b) in enumerate(zip(on_recs, off_recs)):
+                if not _nan_eq(a, b):
+                    bad = next(((x, y) for x, y in zip(a, b) if not _nan_eq(x, y)), None)
+                    return (f"record {k}: with descriptors disabled the line holds {json.dumps(bad[1] if bad else b)[:100]} "
+                            f"where the same record with descriptors enabled holds {json.dumps(bad[0] if bad else a)[:100]}")
     # reading back
     if case["indent"] is None:
         rd = obs.get("read")
